@@ -3,6 +3,7 @@ package rules
 import (
 	"fmt"
 	"go/token"
+	"go/types"
 	"os"
 	"sort"
 	"strings"
@@ -528,6 +529,13 @@ func executeEnv(c *an.Ctx, rule1, rule2 string) {
 		c.Bad(rule1, an.Short(ex)+":env-map", site.Pos(), "the environment map is not filled from the process environment and then the job's env (process=%v job=%v)", proc != nil, job != nil)
 		return
 	}
+	// names nothing overrides pass through unchanged: what the process layer stores is a part of the
+	// entry cut out by position (slicing / splitting at '='), never a transformed copy
+	if okV, culprit := verbatimPart(p, proc.mu.Value, 4); okV {
+		c.OK(rule1, an.Short(ex)+":env-map:process-values", proc.mu.Pos(), "the inherited value is the part of the entry after '=' as it is")
+	} else {
+		c.Bad(rule1, an.Short(ex)+":env-map:process-values", proc.mu.Pos(), "the value taken from the parent process environment goes through %s before it is stored: inherited variables do not reach commands unchanged", culprit)
+	}
 	// bring both layers into one function: descend from Execute while both lie under the same call
 	anchorIn := func(f *ssa.Function, l *layer) (anchor, bool) {
 		if l.fn == f {
@@ -839,4 +847,60 @@ func dirTables(c *an.Ctx, r *runnerRoles, cc *ssa.Function, rule string) {
 		}
 		c.Check(good, rule, an.Short(bc)+":dir-default", bc.Pos(), "a context without dir defaults to the invocation directory", "buildContext does not default an empty dir to the invocation directory")
 	}
+}
+
+// verbatimPart reports whether v is cut out of a string by position only:
+// slices, the results of strings.Index*/Split*/Cut, elements of such results,
+// constants, and module helpers all of whose results are such. culprit names
+// the first call that can change bytes.
+func verbatimPart(p *an.Prog, v ssa.Value, depth int) (bool, string) {
+	if v == nil || depth == 0 {
+		return true, ""
+	}
+	for _, src := range an.Sources(v) {
+		switch x := src.(type) {
+		case *ssa.Const, *ssa.Parameter, *ssa.FreeVar:
+			continue
+		case *ssa.Slice:
+			if ok, cp := verbatimPart(p, x.X, depth); !ok {
+				return false, cp
+			}
+		case *ssa.UnOp:
+			// element of a split result, or the ranged entry itself
+			if ia, ok := x.X.(*ssa.IndexAddr); ok {
+				if ok2, cp := verbatimPart(p, ia.X, depth); !ok2 {
+					return false, cp
+				}
+			}
+		case *ssa.Extract:
+			if ok, cp := verbatimPart(p, x.Tuple, depth); !ok {
+				return false, cp
+			}
+		case *ssa.Next, *ssa.Range, *ssa.Lookup, *ssa.Index:
+			continue
+		case *ssa.Call:
+			name := an.ShortCallee(&x.Call)
+			switch name {
+			case "strings.SplitN", "strings.Split", "strings.Cut", "strings.SplitAfterN", "strings.Index", "strings.IndexByte", "strings.IndexRune":
+				continue
+			}
+			callee := x.Call.StaticCallee()
+			if callee == nil || callee.Blocks == nil || !an.InModule(callee) {
+				return false, name
+			}
+			for _, ret := range an.Returns(callee) {
+				for i := range ret.Results {
+					if b, isB := ret.Results[i].Type().Underlying().(*types.Basic); !isB || b.Kind() != types.String {
+						continue
+					}
+					if ok, cp := verbatimPart(p, an.RetVal(ret, i), depth-1); !ok {
+						return false, cp + " (in " + an.Short(callee) + ")"
+					}
+				}
+			}
+		default:
+			return false, an.Prov(src)
+		}
+	}
+	return true, ""
 }
